@@ -604,3 +604,81 @@ Proof.
   apply Nat.eqb_neq in N. rewrite N. apply andb_false_intro2.
   change (0 + 0) with 0. cbn [strs_distinctb existsb]. rewrite seqb_refl. reflexivity.
 Qed.
+
+(* ------------------------------------------------------------------ front end (round 8) *)
+Lemma front_good_inv cfg fr : front_goodb cfg fr = true ->
+  front_object fr = FOFresh [FAName; FAVersion] /\ front_default_name fr = sdk_name cfg /\ front_default_version fr = sdk_version cfg.
+Proof.
+  unfold front_goodb. intros H. apply andb_prop in H as [H Hv]. apply andb_prop in H as [Ho Hn].
+  apply seqb_eq in Hv. apply seqb_eq in Hn. repeat split; try assumption.
+  destruct (front_object fr) as [[|[|] [|[|] [|? ?]]]|]; try discriminate. reflexivity.
+Qed.
+(* a good front end hands the constructor exactly the arguments a direct construction with the caller's arguments has *)
+Lemma front_args_are_direct cfg fr : front_goodb cfg fr = true -> forall c, front_args cfg fr c = direct_args cfg c.
+Proof.
+  intros G c. destruct (front_good_inv cfg fr G) as (Ho & Hn & Hv).
+  unfold front_args, front_params, direct_args. rewrite Ho, Hn, Hv. destruct c; reflexivity.
+Qed.
+Lemma front_cfg_is_direct cfg fr : front_goodb cfg fr = true -> forall c, front_cfg cfg fr c = direct_cfg cfg c.
+Proof. intros G c. unfold front_cfg, direct_cfg. rewrite (front_args_are_direct cfg fr G). reflexivity. Qed.
+Lemma front_format_is_direct cfg fr : front_goodb cfg fr = true -> forall c qtver eid m,
+  front_format cfg fr c qtver eid m = sentry_format (direct_cfg cfg c) qtver eid m.
+Proof. intros G c qtver eid m. unfold front_format. rewrite (front_cfg_is_direct cfg fr G). reflexivity. Qed.
+(* a directly constructed SentryFormatter(args) is again a specified configuration: every result of GoodCfg applies to it *)
+Lemma with_sdk_good cfg n v : sentry_cfg_goodb cfg = true -> unitsb n = true -> unitsb v = true -> sentry_cfg_goodb (with_sdk cfg n v) = true.
+Proof.
+  intros G Hn Hv. unfold sentry_cfg_goodb in *. cbn [with_sdk level_names level_default routes skipped fp_cut fp_formatted msg_formatted
+    logger_unless_empty logger_unless_default sdk_name sdk_version].
+  apply andb_prop in G as [G _]. apply andb_prop in G as [G _]. rewrite G, Hn, Hv. reflexivity.
+Qed.
+Lemma direct_cfg_good cfg c : sentry_cfg_goodb cfg = true -> call_unitsb c = true -> sentry_cfg_goodb (direct_cfg cfg c) = true.
+Proof.
+  intros G Hc. pose proof G as G'. unfold sentry_cfg_goodb in G'. apply andb_prop in G' as [G' Hv0]. apply andb_prop in G' as [_ Hn0].
+  unfold direct_cfg. apply with_sdk_good; [exact G| |]; destruct c as [|n|n v]; cbn [direct_args fst snd call_unitsb] in *;
+    try assumption; apply andb_prop in Hc; tauto.
+Qed.
+Lemma direct_cfg_sdk cfg c : sdk_name (direct_cfg cfg c) = fst (direct_args cfg c) /\ sdk_version (direct_cfg cfg c) = snd (direct_args cfg c).
+Proof. split; reflexivity. Qed.
+(* the sdk object of the event holds the two constructor arguments *)
+Lemma ev_sdk sdkn sdkv qtver eid m :
+  get2 (event_members sdkn sdkv qtver eid m) k_sdk k_name = Some (JStr sdkn)
+  /\ get2 (event_members sdkn sdkv qtver eid m) k_sdk k_version = Some (JStr sdkv).
+Proof.
+  unfold get2. rewrite (look_event sdkn sdkv qtver eid m k_sdk (JObj [(k_name, JStr sdkn); (k_version, JStr sdkv)])); [split; reflexivity|].
+  unfold sentry_members. do 4 (apply in_or_app; right). cbn. tauto.
+Qed.
+(* the oracle and the round trip for the object obtained through a good front end *)
+Lemma front_roundtrip cfg fr : sentry_cfg_goodb cfg = true -> front_goodb cfg fr = true -> forall c qtver eid m,
+  call_unitsb c = true -> units qtver -> units eid -> wf_msg (s_msg m) -> time_ok (s_time_ms m) ->
+  parse_doc (front_format cfg fr c qtver eid m)
+  = Some (JObj (event_members (fst (direct_args cfg c)) (snd (direct_args cfg c)) qtver eid m)).
+Proof.
+  intros G F c qtver eid m Hc Hq He Hm Ht. rewrite (front_format_is_direct cfg fr F).
+  exact (sentry_roundtrip (direct_cfg cfg c) (direct_cfg_good cfg c G Hc) qtver eid m Hq He Hm Ht).
+Qed.
+Lemma front_oracle_holds cfg fr : sentry_cfg_goodb cfg = true -> front_goodb cfg fr = true -> forall c qtver eid m,
+  call_unitsb c = true -> units qtver -> units eid -> wf_msg (s_msg m) -> time_ok (s_time_ms m) ->
+  routed_scalar (s_attrs m) = true -> is_hex32 eid = true -> prop_c18_b m (front_format cfg fr c qtver eid m) = true.
+Proof.
+  intros G F c qtver eid m Hc Hq He Hm Ht Hs Hid. rewrite (front_format_is_direct cfg fr F).
+  exact (sentry_oracle_holds (direct_cfg cfg c) (direct_cfg_good cfg c G Hc) qtver eid m Hq He Hm Ht Hs Hid).
+Qed.
+(* broken front ends: whatever the configuration, some call gets other constructor arguments than the direct construction *)
+Lemma cons_neq {A} (x : A) l : x :: l <> l.
+Proof. intros H. apply (f_equal (@length A)) in H. cbn in H. induction (length l); [discriminate|injection H; auto]. Qed.
+Definition front_no_args (dn dv : str) : sentry_front := {| front_object := FOFresh []; front_default_name := dn; front_default_version := dv |}.
+Definition front_name_only (dn dv : str) : sentry_front := {| front_object := FOFresh [FAName]; front_default_name := dn; front_default_version := dv |}.
+Definition front_swapped (dn dv : str) : sentry_front := {| front_object := FOFresh [FAVersion; FAName]; front_default_name := dn; front_default_version := dv |}.
+Definition front_shared (dn dv : str) : sentry_front := {| front_object := FOInstance; front_default_name := dn; front_default_version := dv |}.
+Lemma front_no_args_refuted cfg dn dv : exists c, fst (front_args cfg (front_no_args dn dv) c) <> fst (direct_args cfg c).
+Proof. exists (SdkName (0 :: sdk_name cfg)). cbn. intros H. symmetry in H. exact (cons_neq _ _ H). Qed.
+Lemma front_shared_refuted cfg dn dv : exists c, fst (front_args cfg (front_shared dn dv) c) <> fst (direct_args cfg c).
+Proof. exists (SdkName (0 :: sdk_name cfg)). cbn. intros H. symmetry in H. exact (cons_neq _ _ H). Qed.
+Lemma front_name_only_refuted cfg dn dv : exists c, snd (front_args cfg (front_name_only dn dv) c) <> snd (direct_args cfg c).
+Proof. exists (SdkBoth [] (0 :: sdk_version cfg)). cbn. intros H. symmetry in H. exact (cons_neq _ _ H). Qed.
+Lemma front_swapped_refuted cfg dn dv : exists c, front_args cfg (front_swapped dn dv) c <> direct_args cfg c.
+Proof. exists (SdkBoth [] [0]). cbn. discriminate. Qed.
+(* a front end whose declaration has another default than the constructor: formatToSentry() is not SentryFormatter() *)
+Lemma front_wrong_default_refuted cfg fr : front_object fr = FOFresh [FAName; FAVersion] ->
+  front_default_name fr <> sdk_name cfg -> front_args cfg fr SdkNone <> direct_args cfg SdkNone.
+Proof. intros Ho Hd. unfold front_args, front_params, direct_args. rewrite Ho. cbn. intros H. apply Hd. injection H. auto. Qed.
